@@ -46,6 +46,15 @@ def families(tier):
                             params=dict(first_b=first_b, par_a=par_a, par_b=par_b),
                             scn=dict(buses={'A': dict(parallel=par_a), 'B': dict(parallel=par_b)}, order=o, handlers=hs, main=main, actors=actors,
                                      forwards=[('A', 'B')] if fwd else [], settle=3.0)))
+    # a handler of a parallel_handlers bus fails (at once / after a wait) while a sibling handler of the same event is still running
+    for rshape, sib, cshape in itertools.product(['raise', 'pause_raise', 'ret'], ['pause', 'pause_pause'], ['pause', 'ret']):
+        hp = {'raise': [('raise', 'ValueError')], 'pause_raise': [('pause',), ('raise', 'ValueError')], 'ret': [('ret', 1)]}[rshape]
+        hs = [dict(bus='A', pat='P', name='hp', prog=hp), dict(bus='A', pat='P', name='hp2', prog=[('pause',)] * (2 if sib == 'pause_pause' else 1)),
+              dict(bus='B', pat='X', name='hxB', prog=[('pause',)] if cshape == 'pause' else [('ret', 0)]), dict(bus='A', pat='X', name='hxA', prog=[('pause',)])]
+        for o in (['A', 'B'], ['B', 'A']):
+            out.append(dict(prop='C06', family='c06.mutex.parallel', id=f'c06/sibfail-{rshape}-{sib}-{cshape}-o{"".join(o)}', cfg=cfg, params=dict(first_b='main', par_a=True, par_b=False),
+                            scn=dict(buses={'A': dict(parallel=True), 'B': {}}, order=o, handlers=hs, main=[('disp', 'B', 'X0', 'await'), ('disp', 'A', 'P', 'ff'), ('disp', 'B', 'X', 'ff'), ('disp', 'A', 'X', 'ff')],
+                                     actors=[], forwards=[], settle=3.0)))
     # first use of bus B is wait_until_idle() / a dispatch made from inside a handler of A, before anything else touched B
     for how, par_a, cshape in itertools.product(['idle_then_ff', 'idle_then_aw', 'ff_idle'], (False, True), ['pause', 'ret']):
         hp = {'idle_then_ff': [('idle', 'B'), ('disp', 'B', 'C', 'ff'), ('pause',), ('pause',)], 'idle_then_aw': [('idle', 'B'), ('disp', 'B', 'C', 'ff'), ('pause',), ('disp', 'B', 'C2', 'await')],
